@@ -882,6 +882,7 @@ func (l *ChainedSeqContext1) encode() []byte {
 	chainedSeqRuleSetCount := len(l.Rules)
 	total := 6 + 2*len(l.Rules)
 	coverageOffset := total
+	checkOffset16(coverageOffset)
 	total += l.Cov.EncodeLen()
 	chainedSeqRuleSetOffsets := make([]uint16, chainedSeqRuleSetCount)
 	for i, rules := range l.Rules {
@@ -1245,6 +1246,8 @@ func (l *ChainedSeqContext2) encode() []byte {
 	inputOffset := total
 	total += l.Input.AppendLen()
 	lookaheadOffset := total
+	// the offsets in the header are increasing, this is the largest one
+	checkOffset16(lookaheadOffset)
 	total += l.Lookahead.AppendLen()
 	chainedSeqRuleSetOffsets := make([]uint16, chainedSeqRuleSetCount)
 	for i, rr := range l.Rules {
